@@ -280,6 +280,10 @@ func main() {
 		cmdRecord(os.Args[2:])
 		return
 	}
+	if len(os.Args) >= 3 && os.Args[1] == "subsidy" {
+		cmdSubsidy(os.Args[2])
+		return
+	}
 	if len(os.Args) < 2 || os.Args[1] != "replay" {
 		fmt.Fprintln(os.Stderr, "usage: ledger replay|record ...")
 		os.Exit(2)
